@@ -189,6 +189,40 @@ def run(ctx):
     bad4 = []
     nload = [0]
 
+    # helpers of the same file that load items on behalf of their caller: parameter positions whose item is loaded on
+    # every path to a non-failing return (path exploration of the helper)
+    loaders = {}
+    for h in P.functions:
+        if h.file != gc.file or not h.static or h is gc or not any(True for _ in h.calls("item_load")):
+            continue
+        ipar = {p["name"]: i for i, p in enumerate(h.params) if "struct item" in (p.get("t") or "")}
+        if not ipar:
+            continue
+        acc = []
+
+        class Loads(S.SeqRule):
+            max_depth = 0
+
+            def user0(s3, fn):
+                return frozenset()
+
+            def on_call(s3, fn, st, nid, callees, exts):
+                if fn.nodes[nid].get("callee") == "item_load":
+                    a = fn.nodes[fn.origin(fn.nodes[nid]["args"][0])]
+                    if a["k"] == "ref" and a.get("name") in ipar:
+                        return [(st.user | {a["name"]}, S.NONNEG), (st.user, S.NEG)]
+                return None
+
+            def on_exit(s3, fn, st, ret_nid, ret_cls, top):
+                if top and ret_cls != S.NEG:
+                    acc.append(st.user)
+        S.run(Loads(P), h)
+        if acc:
+            must = frozenset.intersection(*acc)
+            if must:
+                loaders[h.name] = sorted(ipar[x] for x in must)
+                r4.note("%s loads its item parameters %s on every path that does not fail" % (h.name, sorted(must)))
+
     class Order(C.Rule):
         def initial(s2, fn):
             return (None, frozenset(), None)     # (first digest buffer, loaded items since, second digest buffer)
@@ -204,11 +238,11 @@ def run(ctx):
                 if h1 is None or (not loaded):
                     return (buf, frozenset(), None)
                 return (h1, loaded, buf)
-            if name == "item_load":
-                it = fn.sn(n["args"][0]).get("name")
+            if name == "item_load" or name in loaders:
+                its = {fn.sn(n["args"][i]).get("name") for i in (loaders[name] if name in loaders else [0]) if i < len(n["args"])}
                 if h2 is not None:
-                    return (h1, loaded | {it}, None)     # a load after the second digest invalidates it
-                return (h1, loaded | {it}, h2)
+                    return (h1, loaded | its, None)     # a load after the second digest invalidates it
+                return (h1, loaded | its, h2)
             if name == "load_ssl_ctx":
                 nload[0] += 1
                 if h1 is None or h2 is None or set(loaded) != set(items) or h1 == h2:
@@ -337,10 +371,10 @@ def run(ctx):
         if fail_lab is None:
             continue
         succ = [s_ for s_, lab in C.edges(gc, b) if lab == fail_lab]
-        progress = {"load_ssl_ctx", "cache_install", "item_load", "get_credentials_hash"}
+        progress = {"load_ssl_ctx", "cache_install", "item_load", "get_credentials_hash"} | set(loaders)
         if not succ or any(gc.nodes[e]["k"] == "call" and gc.nodes[e].get("callee") in progress for bb in C.reachable_blocks(gc, succ[0]) for e in gc.blocks[bb].elems):
             continue            # not an edge that gives up
-        nfail[0] += 1
+        nfail[0] += len(loaders.get(callee, [0]))        # a helper that loads k items stands for k failure edges
         def sets_eproto(bb):
             return any(gc.nodes[e]["k"] == "bin" and gc.nodes[e]["op"] == "=" and gc.show(gc.nodes[e]["l"]) == "errno" and C.const_of(gc, gc.nodes[e]["r"]) == EPROTO
                        for e in gc.blocks[bb].elems)
